@@ -267,7 +267,10 @@ func (r *verifRunner) step(a map[string]any) (string, error) {
 		if d, ok := a["defacs"].(map[string]any); ok {
 			desc["defacs"] = d
 		}
-		if p := verifStr(a, "public"); p != "" {
+		if m, ok := modeArg("auth"); ok {
+			desc["defacs"] = map[string]any{"auth": m}
+		}
+		if p := verifStr(a, "public"); p != "" && p != "-" {
 			desc["public"] = map[string]any{"fn": p}
 		}
 		if p := verifStr(a, "trusted"); p != "" {
